@@ -45,6 +45,10 @@ type scanner struct {
 	calls map[string]bool
 	out   []string
 	depth int
+	// -inline: calls to functions declared in the same file (unique simple name, not listed under -calls) are
+	// replaced by the listing of their bodies (depth <= 3): a helper extraction keeps the listing unchanged
+	inline   map[string]*ast.FuncDecl
+	inlining map[string]bool
 }
 
 func (s *scanner) emit(format string, a ...any) {
@@ -91,6 +95,19 @@ func (s *scanner) walkExpr(e ast.Node) {
 			}
 			if n, ok := s.callName(x); ok {
 				s.emit("call %s", n)
+			} else if s.inline != nil {
+				callee := ""
+				switch f := x.Fun.(type) {
+				case *ast.SelectorExpr:
+					callee = f.Sel.Name
+				case *ast.Ident:
+					callee = f.Name
+				}
+				if fd := s.inline[callee]; fd != nil && !s.inlining[callee] && len(s.inlining) < 3 {
+					s.inlining[callee] = true
+					s.walkBlock(fd.Body)
+					delete(s.inlining, callee)
+				}
 			}
 			return false
 		case *ast.UnaryExpr:
@@ -284,6 +301,7 @@ func main() {
 	funcs := flag.String("funcs", "", "comma separated: Func or Recv.Method")
 	calls := flag.String("calls", "", "comma separated call-out method names")
 	consts := flag.String("consts", "", "comma separated package-level const/var names whose defining expression is printed")
+	inline := flag.Bool("inline", false, "inline the listings of same-file helper functions at their call sites")
 	flag.Parse()
 	fset := token.NewFileSet()
 	f, err := parser.ParseFile(fset, *file, nil, 0)
@@ -302,6 +320,11 @@ func main() {
 		if n != "" {
 			cs[n] = true
 		}
+	}
+	// functions listed under -funcs are printed on their own and never inlined
+	wantSimple := map[string]bool{}
+	for n := range want {
+		wantSimple[n[strings.LastIndex(n, ".")+1:]] = true
 	}
 	found := map[string]bool{}
 	// package-level constants / variables the models take their numbers from: printed as written in the source
@@ -361,6 +384,22 @@ func main() {
 		}
 		found[name] = true
 		sc := &scanner{fset: fset, calls: cs}
+		if *inline {
+			sc.inline = map[string]*ast.FuncDecl{}
+			sc.inlining = map[string]bool{}
+			dup := map[string]bool{}
+			for _, d2 := range f.Decls {
+				if fd2, ok := d2.(*ast.FuncDecl); ok && fd2.Body != nil && fd2 != fd && !wantSimple[fd2.Name.Name] {
+					if sc.inline[fd2.Name.Name] != nil {
+						dup[fd2.Name.Name] = true
+					}
+					sc.inline[fd2.Name.Name] = fd2
+				}
+			}
+			for n := range dup {
+				delete(sc.inline, n)
+			}
+		}
 		sc.walkBlock(fd.Body)
 		fmt.Printf("func %s\n", name)
 		for _, l := range prune(sc.out) {
